@@ -1097,6 +1097,7 @@ func streamHeap(o *Out, r *Rng, tier string) {
 	}
 	o.meta.Stats["directed.clone-histories"] = nClone
 	streamComparePairs(o, r.Fork(777), tier)
+	streamCompareSpecials(o, r.Fork(778), tier)
 }
 
 var cloneSources = [][][]string{
@@ -1339,6 +1340,51 @@ func streamComparePairs(o *Out, r *Rng, tier string) {
 			emit([]string{r.Pick([]string{"le", "leq", "ge", "geq", "neq"}), strconv.Itoa(a), strconv.Itoa(b)})
 		}
 		emit([]string{"dump"})
+	}
+}
+
+// streamCompareSpecials: operands no JSON text denotes — NaN, ±Inf (NumericNode, SetNumeric) — and the largest and smallest finite
+// magnitudes, against each other and against ordinary numbers, through Eq/Neq and all four orderings, in both orders, alone and
+// inside containers (IEEE: every ordering with a NaN operand is false, NaN != NaN; huge whole numbers differ)
+func streamCompareSpecials(o *Out, r *Rng, tier string) {
+	bits := []uint64{0x7FF8000000000001, 0xFFF8000000000000, 0x7FF0000000000000, 0xFFF0000000000000, 0x3FF0000000000000, 0, 0x8000000000000000,
+		0x43E0000000000000, 0x43F0000000000000, 0x4415AF1D78B58C40, 0x44B52D02C7E14AF6, 0x7FEFFFFFFFFFFFFF, 0xFFEFFFFFFFFFFFFF, 1, 0x8000000000000001,
+		0xC3E0000000000000, 0x4340000000000000, 0x4340000000000001}
+	hex := func(b uint64) string { return fmt.Sprintf("%016x", b) }
+	for i, x := range bits {
+		for j, y := range bits {
+			if tier != "thorough" && i > 3 && j > 3 && !r.Chance(35) {
+				continue
+			}
+			o.Stat("cmp.special-operands")
+			p := &probeRun{o: o, s: &Session{}, ref: map[*ajson.Node]*Ref{}}
+			emit := func(f []string) {
+				obs := p.step(f, true)
+				o.Emit(reqLine(f), obs, "")
+			}
+			emit([]string{"reset"})
+			emit([]string{"num", "-", hex(x)})
+			emit([]string{"num", "-", hex(y)})
+			for _, op := range []string{"eq", "neq", "le", "leq", "ge", "geq"} {
+				emit([]string{op, "0", "1"})
+				emit([]string{op, "1", "0"})
+			}
+			emit([]string{"eq", "0", "0"})
+			emit([]string{"leq", "0", "0"})
+			// the same two values stored into parsed documents by SetNumeric, compared as containers
+			emit([]string{"parse", hexOrDash([]byte(`[1,0,{"a":[]}]`))})
+			emit([]string{"parse", hexOrDash([]byte(`[1.0,0,{"a":[]}]`))})
+			emit([]string{"getidx", "2", "1"})
+			emit([]string{"getidx", "3", "1"})
+			if len(p.s.handles) >= 6 {
+				emit([]string{"setnum", "4", hex(x)})
+				emit([]string{"setnum", "5", hex(y)})
+				emit([]string{"eq", "2", "3"})
+				emit([]string{"neq", "3", "2"})
+				emit([]string{"eq", "2", "2"})
+			}
+			emit([]string{"dump"})
+		}
 	}
 }
 
